@@ -6,7 +6,7 @@ their exception classes.  Stub: the socket object and the clock.
 import itertools
 
 from simkit import core, shrinkers
-from engines.simnet import SimClock, SimSocket, INF, StepCapExceeded
+from engines.simnet import SimClock, SimSocket, INF, StepCapExceeded, Cancelled
 
 PROPERTY = 'C12'
 ENGINE = 'simnet'
@@ -171,11 +171,13 @@ def _gen_recv(rng, tier):
             ops.append(['recv', _gen_size(rng, len(stream))])
         else:
             ops.append(['recv_close', rng.choice(['unset', None, 0, 1, 3, 10, len(stream), max(0, len(stream) - 1)])])
+    if timeout is not None and rng.random() < 0.3:
+        ops = [(op + [{'abandon': True}]) if rng.random() < 0.4 else op for op in ops]
     recv_errors = []
     if rng.random() < 0.15:
         import errno as _e
         for _ in range(rng.randint(1, 3)):
-            recv_errors.append([rng.randint(1, 12), rng.choice([_e.ECONNRESET, _e.EINTR, _e.ENOBUFS])])
+            recv_errors.append([rng.randint(1, 12), rng.choice([_e.ECONNRESET, _e.EINTR, _e.ENOBUFS, 0, 0])])
     if tick == 0.0 and rng.random() < 0.35:
         # per-call timeout overrides and changes of the defaults in mid-stream
         tchoices = [None, 0, 0.5, 5.0]
@@ -233,7 +235,7 @@ def _gen_send(rng, tier):
     if rng.random() < 0.15:
         import errno as _e
         for _ in range(rng.randint(1, 3)):
-            send_errors.append([rng.randint(1, 10), rng.choice([_e.ECONNRESET, _e.EINTR, _e.ENOBUFS])])
+            send_errors.append([rng.randint(1, 10), rng.choice([_e.ECONNRESET, _e.EINTR, _e.ENOBUFS, 0, 0])])
     return {'mode': 'send', 'timeout': timeout, 'sndbuf': sndbuf, 'drains': drains,
             'send_split': _gen_split(rng), 'tick': tick, 'ops': ops, 'send_errors': send_errors}
 
@@ -364,10 +366,17 @@ def _expected(op, R, default_maxsize):
     raise AssertionError(name)
 
 
+def _op_abandon(op):
+    """Ops may end with {'abandon': True}: if the call fails with Timeout / EWOULDBLOCK / a transient error
+    the caller gives up on it and goes on with the next call (a failed call must leave no trace)."""
+    return any(isinstance(x, dict) and x.get('abandon') for x in op)
+
+
 def _op_timeout(op):
     """Per-call timeout override: ops may end with {'to': value}; absent means use the default."""
-    if op and isinstance(op[-1], dict) and 'to' in op[-1]:
-        return True, op[-1]['to']
+    for x in op:
+        if isinstance(x, dict) and 'to' in x:
+            return True, x['to']
     return False, None
 
 
@@ -467,6 +476,9 @@ def _run_recv(case):
                     break
                 if conserve('Timeout', i):
                     break
+                if _op_abandon(op):
+                    out.probe('call_abandoned_after_timeout')
+                    break
                 continue
             except BlockingIOError as e:
                 out.fault('ewouldblock')
@@ -483,10 +495,22 @@ def _run_recv(case):
                     out.fail('unexpected-exception', i, 'BlockingIOError after the peer closed', op=op[0])
                     break
                 clock.advance_to(nxt)     # the caller's select()
+                if _op_abandon(op):
+                    out.probe('call_abandoned_after_timeout')
+                    break
                 continue
             except StepCapExceeded:
                 out.fail('no-progress', i, 'op %r made more recv() calls than any correct run needs' % (op,), op=op[0])
                 break
+            except Cancelled:
+                # the call was cancelled from outside while blocked in recv(): nothing may be lost
+                out.fault('cancelled_in_recv')
+                if bs.getrecvbuffer():
+                    out.probe('cancelled_with_partial_data')
+                    classes.add('cancelled_with_partial_data')
+                if conserve('cancellation', i):
+                    break
+                continue
             except OSError as e:
                 if 'simulated transient socket error' in str(e):
                     # a transient socket error (ECONNRESET-like, one shot): nothing may be lost, the retry goes on
@@ -620,6 +644,12 @@ def _run_send(case):
         except StepCapExceeded:
             out.fail('no-progress', i, '%s made more send() calls than any correct run needs' % op[0], op=op[0])
             break
+        except Cancelled:
+            ok = False
+            out.fault('cancelled_in_send')
+            if bs.getsendbuffer():
+                classes.add('cancelled_with_bytes_unsent')
+                out.probe('cancelled_with_bytes_unsent')
         except OSError as e:
             if 'simulated transient socket error' in str(e):
                 ok = False
